@@ -1,12 +1,23 @@
 #!/bin/sh
-# tools/reverttest.sh <fix-commit> <property> [<property> ...]
+# tools/reverttest.sh <fix-commit>[+<fix-commit>...] <property> [<property> ...]
 # Re-introduces the defect repaired by a "fix:" commit of /repo (reverse patch on a scratch worktree) and runs the named
 # checks against it, through tools/seedtest.sh.  A check that stays quiet does not detect the return of that defect.
+# Several commits joined by "+" are reverted together, newest first (a later fix that rewrote the same lines makes the reverse patch
+# of the earlier one conflict on its own: c510ccb is only revertible together with 7afdd12, `reverttest.sh 7afdd12+c510ccb C02 C18`).
+# The reverse patch is made with `git revert --no-commit` in a scratch worktree, so context that moved since the fix is handled by git's merge.
 set -u
 C="$1"; shift
-D=/var/tmp/revert.$$.$C
+D=/var/tmp/revert.$$
 mkdir -p "$D"
-git -C /repo diff "$C" "$C~1" > "$D/patch.diff"
+git -C /repo worktree add -q --detach "$D/wt" HEAD || exit 2
+ok=1
+for c in $(echo "$C" | tr '+' ' '); do
+  git -C "$D/wt" revert --no-commit "$c" >/dev/null 2>&1 || ok=0
+done
+if [ "$ok" = 1 ]; then git -C "$D/wt" diff HEAD > "$D/patch.diff"; else git -C /repo diff "$C" "$C~1" > "$D/patch.diff" 2>/dev/null; fi
+git -C "$D/wt" revert --abort >/dev/null 2>&1
+git -C /repo worktree remove --force "$D/wt"
+if [ "$ok" != 1 ]; then echo "reverting $C on /repo HEAD conflicts (a later fix rewrote the same lines: revert them together, e.g. 7afdd12+c510ccb)"; fi
 sh "$(dirname "$0")/seedtest.sh" "$D" "$@"
 rc=$?
 rm -rf "$D"
